@@ -8,6 +8,7 @@ import (
 	"go/ast"
 	"go/parser"
 	"go/token"
+	"strconv"
 	"strings"
 )
 
@@ -160,6 +161,32 @@ func genCmapx() {
 	}
 	facts["cmapx.macDec.len"] = len(dec)
 	l.p("/-- mac/encoding.go: `dec`, the runes of MacRoman codes 128..255 -/\n")
-	l.p("def cmapxMacDec : List Nat := [%s]\n", strings.Join(dec, ", "))
+	l.p("def cmapxMacDec : List Nat := [%s]\n\n", strings.Join(dec, ", "))
+
+	// the full code -> rune table of mac.DecodeOne: `if c < 128 { return rune(c) }; return dec[c-128]`
+	one := strings.Join(strings.Fields(funcText("mac/encoding.go", "DecodeOne")), " ")
+	if !strings.Contains(one, "if c < 128 { return rune(c) } return dec[c-128]") {
+		fail("mac/encoding.go: DecodeOne no longer has the shape `if c < 128 { return rune(c) }; return dec[c-128]`")
+	}
+	var full []string
+	for i := 0; i < 128; i++ {
+		full = append(full, strconv.Itoa(i))
+	}
+	full = append(full, dec...)
+	facts["cmapx.macRomanTable.len"] = len(full)
+	l.p("/-- mac/encoding.go: `DecodeOne(c)` for c = 0..255 (identity below 128, `dec[c-128]` above) -/\n")
+	l.p("def macRomanTable : List Nat := [%s]\n\n", strings.Join(full, ", "))
+
+	// Table.Get: the code2rune closure for platform 1 and the encoding it accepts
+	get := strings.Join(strings.Fields(funcText("cmap/cmap.go", "Table.Get")), " ")
+	closure := strings.Contains(get, "macRoman := func(code int) rune { return mac.DecodeOne(byte(code)) }")
+	cond := strings.Contains(get, "if key.PlatformID == 1 { if key.EncodingID != 0 {") && strings.Contains(get, "code2rune = macRoman")
+	pass := strings.Contains(get, "return decode(data, code2rune)")
+	if !closure || !cond || !pass {
+		fail("cmap/cmap.go: Table.Get no longer builds code2rune = mac.DecodeOne(byte(code)) for platform 1 / encoding 0 and passes it to every decoder")
+	}
+	facts["cmapx.get.macRomanClosure"] = closure && cond && pass
+	l.p("/-- cmap/cmap.go: Table.Get passes `func(code) = mac.DecodeOne(byte(code))` to the decoder of every format\nfor platform 1, encoding 0 (source shape checked by the extractor) -/\n")
+	l.p("def getMacClosureShape : Bool := %v\n", closure && cond && pass)
 	l.write()
 }
